@@ -49,6 +49,7 @@ func checkC18(c *Ctx, r *Report) {
 	// from YAML) goes through the same per-name store: no normalize function has a path of its own for one representation
 	namedStoreRule(c, r, "R18h")
 	numericSiblingsRule(c, r)
+	readSideMetaRule(c, r)
 	r.Rule("R18b", "source plumbing: MetaData stores the address of its Meta copy into options.meta; value constructors on normalize* paths receive opts.meta; error constructors pass their *Meta on towards messageMeta", 20)
 	metaDataRule(c, r)
 	metaReachesValues(c, r, "R18b")
@@ -451,6 +452,28 @@ func metaReachesValues(c *Ctx, r *Report, rule string) {
 			}
 			r.Check(good, rule, c.FnName(fn), "metadata of New()", c.Pos(call.Pos()), "new Config receives metadata = opts.meta", "Config created during normalization without metadata = opts.meta: errors about this object cannot name its source")
 		}
+		// … and the same for a Config written as a literal (&Config{…})
+		Instrs(fn, true, func(in ssa.Instruction) {
+			al, ok := in.(*ssa.Alloc)
+			if !ok || !al.Heap || !types.Identical(al.Type().(*types.Pointer).Elem(), cfgT) {
+				return
+			}
+			good := false
+			for _, ref := range *al.Referrers() {
+				fa, ok := ref.(*ssa.FieldAddr)
+				if !ok {
+					continue
+				}
+				if nt, f, ok := FieldOf(fa); ok && nt == cfgT && f == "metadata" {
+					for _, r2 := range *fa.Referrers() {
+						if st, ok := r2.(*ssa.Store); ok && st.Addr == ssa.Value(fa) && isOptsMeta(st.Val, fn) {
+							good = true
+						}
+					}
+				}
+			}
+			r.Check(good, rule, c.FnName(fn), "metadata of Config literal", c.Pos(al.Pos()), "the literal receives metadata = opts.meta", "a Config literal built during normalization has no metadata = opts.meta: errors about this object (an empty list, say) cannot name the file it was loaded from")
+		})
 	}
 }
 
@@ -682,5 +705,60 @@ func numericSiblingsRule(c *Ctx, r *Report) {
 		agree := supp["cfgInt"] == supp["cfgUint"] && supp["cfgUint"] == supp["cfgFloat"]
 		r.Check(agree, "R18i", "ucfg.numeric nodes", m, "-", strings.Join(desc, "; "),
 			"the numeric node types do not support the same conversions — "+strings.Join(desc, "; ")+": a whole number is a cfgInt/cfgUint when the document came through yaml and a cfgFloat when it came through json or hjson, so the same document unpacks through one front-end and fails through another")
+	}
+}
+
+// readSideMetaRule (R18j): source plumbing on the read and setter side. (i) The empty Config a null setting reads as
+// (cfgNil.toConfig) takes over the metadata of the null, like its context: errors raised below `a: null` name the
+// file. (ii) setField attaches the MetaData option to the value before cfgPath.SetValue stores it: the intermediate
+// nodes SetValue creates take their metadata from the value (R18g).
+func readSideMetaRule(c *Ctx, r *Report) {
+	r.Rule("R18j", "cfgNil.toConfig gives the Config it builds the receiver's metadata; setField sets the value's metadata before it calls SetValue", 2)
+	cfgT := c.Named("", "Config")
+	if fn := c.MethodImpl(types.NewPointer(c.Named("", "cfgNil")), "toConfig"); fn != nil {
+		fn = declared(c, fn)
+		ok := false
+		Instrs(fn, false, func(in ssa.Instruction) {
+			st, isSt := in.(*ssa.Store)
+			if !isSt {
+				return
+			}
+			if nt, f, okF := FieldOf(st.Addr); okF && nt == cfgT && f == "metadata" {
+				for _, s := range append(Sources(st.Val), st.Val) {
+					if l, isL := s.(*ssa.UnOp); isL {
+						if _, f2, ok2 := FieldOf(l.X); ok2 && f2 == "metadata" {
+							ok = true
+						}
+					}
+					if call, isC := s.(*ssa.Call); isC && calledName(call) == "meta" {
+						ok = true
+					}
+				}
+			}
+		})
+		r.Check(ok, "R18j", c.FnName(fn), "null keeps its source", c.Pos(fn.Pos()), "the new Config's metadata is the receiver's",
+			"the empty Config a null setting reads as does not take over the null's metadata: errors raised below a null (a required field missing in `a: null`, a validator on a null list element) name the setting without the file it was loaded from")
+	} else {
+		r.add("R18j", "ucfg.cfgNil.toConfig", "null keeps its source", "-", Undecided, true, "method not found")
+	}
+	sf := c.Method("", "Config", "setField")
+	var setMeta, setValue ssa.Instruction
+	for _, ci := range CallsIn(sf, false) {
+		switch {
+		case ci.Common().IsInvoke() && ci.Common().Method.Name() == "setMeta":
+			setMeta = ci.(ssa.Instruction)
+		case ci.Common().StaticCallee() != nil && ci.Common().StaticCallee().Name() == "SetValue":
+			setValue = ci.(ssa.Instruction)
+		}
+	}
+	switch {
+	case setMeta == nil || setValue == nil:
+		r.add("R18j", c.FnName(sf), "metadata before the store", c.Pos(sf.Pos()), Undecided, true, "setField does not call both setMeta and SetValue")
+	default:
+		// the store is not reachable without passing the setMeta block when metadata is given: setMeta's block lies
+		// on every path on which opts.meta != nil, i.e. SetValue does not precede it
+		before := !InstrDominates(setValue, setMeta) && !reachableFromEdge(nil, setValue.Block(), setMeta.Block(), nil)
+		r.Check(before, "R18j", c.FnName(sf), "metadata before the store", c.Pos(setMeta.Pos()), "setMeta is not behind SetValue",
+			"setField attaches the MetaData option to the value after SetValue stored it: the intermediate nodes SetValue creates for a dotted name took their metadata from a value that had none yet, and errors about them do not name the source")
 	}
 }
